@@ -291,7 +291,15 @@ where
                 // Add the implicit rule: ~: "IMPLICIT_TOKEN_1" ~ | ... | "IMPLICIT_TOKEN_N" ~ | ;
                 let implicit_prods = &mut rules_prods[usize::from(rule_map[astrulename])];
                 // Add a production for each implicit token
-                for t in ast.implicit_tokens.as_ref().unwrap().keys() {
+                // Iterate in token declaration order: `implicit_tokens` is a `HashMap`, whose
+                // iteration order (and hence the production numbering) would otherwise differ
+                // from run to run.
+                let implicit_tokens = ast.implicit_tokens.as_ref().unwrap();
+                for t in ast
+                    .tokens
+                    .iter()
+                    .filter(|t| implicit_tokens.contains_key(*t))
+                {
                     implicit_prods.push(PIdx(prods.len().as_()));
                     prods.push(Some(vec![Symbol::Token(token_map[t]), Symbol::Rule(ridx)]));
                     prod_precs.push(Some(None));
